@@ -7,7 +7,8 @@ is proved to refine (C02).  Every theorem quantifies over all file lists / sort 
 codecs / checksum functions; `fnmatch` is the parameter `mt`.
 -/
 import Sqfs.Proofs.Sort
-import Sqfs.Proofs.PackLocal
+import Sqfs.Proofs.PackPos
+import Sqfs.Proofs.Export
 namespace Sqfs.C17
 open Sqfs.Sort Sqfs.Pack
 
@@ -205,5 +206,104 @@ theorem no_tail_packing_layout (P : Params) (σ : State) (F : Flags) (d : List U
     · exact hfr
     · rw [hnt] at ht; cases ht
     · rw [hnt] at ht; cases ht
+
+/-! ## Part 3 — `specPack`: effects that involve other files, and the contents -/
+
+/-- **`dont_compress`** (full statement).  Every block word of such a file is a hole or has the "stored
+uncompressed" bit, **and** the fragment block that holds its tail end is stored uncompressed — also when the tail is
+deduplicated (a `dont_compress` tail is only ever shared with `dont_compress` tails; D27 is the pinned code
+breaking this). -/
+theorem dont_compress_effect (P : Params) (files : List InFile) (i : Nat) (h : i < files.length)
+    (hf : files[i].flags.dontCompress = true) :
+    ∃ r, (specPack P files).files[i]? = some r
+      ∧ (∀ w ∈ r.words, w = .sparse ∨ ∃ n, w = .stored n true)
+      ∧ (∀ k o, r.frag = some (k, o) → ∃ e, (specPack P files).frags[k]? = some e ∧ e.raw = true) := by
+  obtain ⟨r, hr, hw⟩ := dont_compress_words P files i h hf
+  obtain ⟨r', hr', hfr⟩ := dont_compress_frag_raw P files i h hf
+  rw [hr] at hr'; cases hr'
+  exact ⟨r, hr, hw, hfr⟩
+
+/-- **`dont_deduplicate`.**  The file's blocks are its own (`shared = false`): they start where the data area
+ended when the file was packed, i.e. behind the blocks of every earlier file; and its fragment does not overlap the
+fragment of any earlier file (own fragment slot). -/
+theorem dont_dedup_effect (P : Params) (files : List InFile) (i j : Nat) (hij : i < j) (hj : j < files.length)
+    (hf : files[j].flags.dontDedup = true) :
+    ∃ ri rj, (specPack P files).files[i]? = some ri ∧ (specPack P files).files[j]? = some rj
+      ∧ rj.shared = false
+      ∧ (diskBytes rj.words > 0 → ri.start + diskBytes ri.words ≤ rj.start)
+      ∧ (∀ a o b o', ri.frag = some (a, o) → rj.frag = some (b, o') →
+            a ≠ b ∨ o + (files[i]'(by omega)).data.length % P.B ≤ o') := by
+  obtain ⟨ri, rj, h1, h2, hb, hs⟩ := blocks_before P files i j hij hj
+  obtain ⟨ri', rj', h1', h2', hfr⟩ := frag_slot_disjoint P files i j hij hj
+  rw [h1] at h1'; cases h1'
+  rw [h2] at h2'; cases h2'
+  exact ⟨ri, rj, h1, h2, hs hf, hb (hs hf), hfr hf⟩
+
+/-- **The layout follows the order.**  For files `i < j` of the (sorted) list that both own stored blocks, `j` not
+sharing: `i`'s blocks lie entirely before `j`'s first block; in particular the start offsets ascend strictly. -/
+theorem layout_follows_order (P : Params) (hB : 0 < P.B) (hc : P.codec.Ok) (files : List InFile) (i j : Nat)
+    (hij : i < j) (hj : j < files.length) :
+    ∃ ri rj, (specPack P files).files[i]? = some ri ∧ (specPack P files).files[j]? = some rj
+      ∧ (rj.shared = false → (∃ n raw, Word.stored n raw ∈ rj.words) →
+          ri.start + diskBytes ri.words ≤ rj.start
+          ∧ ((∃ n raw, Word.stored n raw ∈ ri.words) → ri.start < rj.start)) := by
+  obtain ⟨ri, rj, h1, h2, hb, _⟩ := blocks_before P files i j hij hj
+  refine ⟨ri, rj, h1, h2, ?_⟩
+  intro hns ⟨n, raw, hm⟩
+  obtain ⟨σj, hσj⟩ := packFiles_getElem P files {} j hj
+  rw [specPack_files] at h2
+  rw [h2] at hσj; cases hσj
+  have hposj := diskBytes_pos _ (words_pos P hB hc σj files[j]) n raw hm
+  have hle := hb hns hposj
+  refine ⟨hle, ?_⟩
+  intro ⟨n', raw', hm'⟩
+  obtain ⟨σi, hσi⟩ := packFiles_getElem P files {} i (by omega)
+  rw [specPack_files] at h1
+  have hri : ri = (packFile P σi (files[i]'(by omega))).2 := Option.some.inj (h1.symm.trans hσi)
+  rw [hri] at hm'
+  have hposi := diskBytes_pos _ (words_pos P hB hc σi (files[i]'(by omega))) n' raw' hm'
+  rw [← hri] at hposi
+  omega
+
+/-- **The directives do not change the contents.**  Whatever the flags, the order and the other files: reading
+file `i` back from the `specPack` layout — block words in order, a hole as zeros, a stored block via `unc` unless
+raw, the tail end from its fragment block — yields exactly the file's input bytes. -/
+theorem directives_preserve_content (P : Params) (hB : 0 < P.B) (hc : P.codec.Ok) (files : List InFile) (i : Nat)
+    (h : i < files.length) :
+    ∃ r, (specPack P files).files[i]? = some r ∧ readFile P (specPack P files) r = files[i].data :=
+  readFile_specPack P hB hc files i h
+
+-- non-vacuity: dedup hit + dont_deduplicate + nosparse + a compressing codec that satisfies the contract on the inputs
+example :
+    let P : Params := { B := 4, base := 96, h := fun _ => 0,
+                        codec := ⟨fun x => if x = [7, 7, 7, 7] then some [9] else none, fun z => if z = [9] then [7, 7, 7, 7] else z⟩ }
+    let fs : List InFile := [⟨{}, [7, 7, 7, 7, 1, 2]⟩, ⟨{}, [7, 7, 7, 7, 1, 2]⟩, ⟨{ dontDedup := true }, [7, 7, 7, 7, 1, 2]⟩,
+                             ⟨{ ignoreSparse := true }, [0, 0, 0, 0, 0]⟩]
+    (specPack P fs).files.map (fun r => (r.start, r.frag, r.shared)) = [(96, some (0, 0), false), (96, some (0, 0), true),
+        (97, some (0, 2), false), (98, some (1, 0), false)]
+    ∧ (specPack P fs).files.map (readFile P (specPack P fs)) = fs.map (·.data) := by decide
+
+/-- **Export table** (`--exportable`).  `ref m` = inode reference of inode number `m` (hard links repeat a
+number with the same reference).  After `add_export_table_entry` for every directory entry (inode numbers `nums`,
+in any order, with repetitions) and finally the root, where every inode number `1..N` occurs: the table has exactly
+`N` entries and entry `m - 1` is the reference of inode `m`. -/
+theorem export_table_ok (ref : Nat → UInt64) (nums : List Nat) (root N : Nat)
+    (hrange : ∀ m ∈ nums ++ [root], 1 ≤ m ∧ m ≤ N) (hall : ∀ m, 1 ≤ m → m ≤ N → m ∈ nums ++ [root]) :
+    (exportTable (nums.map (fun m => (m, ref m))) (root, ref root)).length = N
+    ∧ ∀ m, 1 ≤ m → m ≤ N → (exportTable (nums.map (fun m => (m, ref m))) (root, ref root))[m - 1]? = some (ref m) := by
+  rw [exportTable_eq_fold]
+  obtain ⟨h1, _, h3⟩ := export_fold ref N (nums ++ [root]) [] hrange (by simp)
+  have hN : 1 ≤ N := by
+    have := hrange root (by simp); omega
+  have hNin := h3 N (hall N hN (Nat.le_refl _))
+  refine ⟨?_, fun m hm hmN => h3 m (hall m hm hmN)⟩
+  unfold Has at hNin
+  have : N - 1 < ((nums ++ [root]).foldl (fun t m => addExport t m (ref m)) []).length := by
+    rcases Nat.lt_or_ge (N - 1) ((nums ++ [root]).foldl (fun t m => addExport t m (ref m)) []).length with h | h
+    · exact h
+    · rw [List.getElem?_eq_none_iff.2 h] at hNin; cases hNin
+  omega
+
+example : exportTable [(2, 100), (3, 7), (2, 100)] (1, 50) = [50, 100, 7] := by decide
 
 end Sqfs.C17
